@@ -88,7 +88,7 @@ class C12(Scenario):
             ops = []
             started = False
             scheduled = set()
-            for _ in range(rng.randrange(3, 10)):
+            for _ in range(rng.randrange(3, 10) if tier != "thorough" or rng.random() < 0.5 else rng.randrange(10, 41)):
                 r = rng.random()
                 if r < 0.35:
                     p = rng.choice(["root", "root"] + (["missing"] if started else []) + [d for d in m.dirs_in("root")])
